@@ -9,6 +9,10 @@ GInit == Init /\ hist = <<[d |-> "init", t |-> privacy, f |-> 0]>>
 GNext ==
     \/ \E t \in Traces, f \in Flows : K([d |-> "grow", t |-> t, f |-> f], GrowF(t, f) /\ DataUnch)
     \/ \E t \in Traces : K([d |-> "flow", t |-> t, f |-> 0], NewFlow(t) /\ DataUnch)
+    \* one more address at an existing hop (single-flow configurations only: with several flows a new address would
+    \* register a new flow in the implementation)
+    \/ \E t \in Traces, i \in 0..(MaxHops - 1) :
+          MaxFlows = 1 /\ i < data[t].hops[0] /\ K([d |-> "addr", t |-> t, f |-> i], NewAddrI(t, i) /\ DataUnch)
     \/ (Tick /\ hist' = hist) \/ (Draw /\ hist' = hist)
     \/ K([d |-> "tick", t |-> 0, f |-> 0], NoKey)
     \/ K([d |-> "next_hop", t |-> 0, f |-> 0], NextHop) \/ K([d |-> "previous_hop", t |-> 0, f |-> 0], PrevHop)
